@@ -1,5 +1,77 @@
 import SemVerif.Spec.Preds
 import SemVerif.Inventory
-/-! # Property C17 — theorems (under construction) -/
+/-!
+# Property C17 — each function body is analysed independently of the other bodies
+
+In the model a body is analysed from a fresh block state, sees the global tables only through the
+lookups of `Globals`, and the declaration passes never look at a body.  Hence:
+* `C17_decls`: two programs that differ only in function bodies have the same declaration phase
+  (tables, global stack, declaration errors);
+* `C17_root`: the block tree and stack of function `i` are `functionBody (globals) f_i` — a function
+  of the global tables and of that function alone; so they are equal in two such programs whenever
+  function `i` has the same body in both (`C17_swap`);
+* `C17_errors`: the error list is the declaration errors followed by each function's own body
+  errors in source order.
+That the *Rust* code has this structure is the content of the tie: the regenerated inventory of
+statements mutating `self.global` / `self.errors` / `self.context` (`inv_mutationSites`) and the
+`swap` correspondence profile.
+-/
 namespace SemVerif
+
+/-- the program with every function body removed -/
+def stubBodies : Program → Program
+  | [] => []
+  | .fn f :: rest => .fn { f with body := [] } :: stubBodies rest
+  | t :: rest => t :: stubBodies rest
+
+theorem declFn_stub (f : FnDecl) (gs : GState) : declFn { f with body := [] } gs = declFn f gs := rfl
+
+theorem pass1_stub : ∀ (p : Program) (gs : GState), pass1 (stubBodies p) gs = pass1 p gs
+  | [], _ => rfl
+  | .fn f :: rest, gs => by simp only [stubBodies, pass1]; exact pass1_stub rest gs
+  | .imp _ :: rest, gs => by simp only [stubBodies, pass1]; exact pass1_stub rest gs
+  | .types d :: rest, gs => by simp only [stubBodies, pass1]; exact pass1_stub rest _
+  | .const _ :: rest, gs => by simp only [stubBodies, pass1]; exact pass1_stub rest gs
+
+theorem pass2_stub : ∀ (p : Program) (gs : GState), pass2 (stubBodies p) gs = pass2 p gs
+  | [], _ => rfl
+  | .fn f :: rest, gs => by simp only [stubBodies, pass2, declFn_stub]; exact pass2_stub rest _
+  | .imp _ :: rest, gs => by simp only [stubBodies, pass2]; exact pass2_stub rest gs
+  | .types _ :: rest, gs => by simp only [stubBodies, pass2]; exact pass2_stub rest gs
+  | .const d :: rest, gs => by simp only [stubBodies, pass2]; exact pass2_stub rest _
+
+/-- the declaration phase of a program -/
+def declState (p : Program) : GState := pass2 p (pass1 p GState.init)
+
+/-- **C17 (declarations)** — the declaration phase does not depend on function bodies -/
+theorem C17_decls (p q : Program) (h : stubBodies p = stubBodies q) : declState p = declState q := by
+  unfold declState
+  rw [← pass2_stub p, ← pass1_stub p, h, pass2_stub, pass1_stub]
+
+/-- **C17 (one function)** — root block (stack and block tree) of the `i`-th function -/
+theorem C17_root (p : Program) (i : Nat) :
+    (run p).roots[i]? = (p.fns[i]?).map fun f => (functionBody (declState p).globals f).root := by
+  unfold run declState
+  simp only [List.getElem?_map, Option.map_map]
+  rfl
+
+/-- **C17 (errors)** — declaration errors, then each function's own body errors in source order -/
+theorem C17_errors (p : Program) :
+    (run p).errors = (declState p).errors ++ (p.fns.map fun f => (functionBody (declState p).globals f).errors).flatten := by
+  unfold run declState
+  simp [List.map_map, Function.comp_def]
+
+/-- **C17 (swap)** — replacing the bodies of the other functions by arbitrary bodies leaves the
+stack and block tree of function `i` unchanged, and the global tables too -/
+theorem C17_swap (p q : Program) (h : stubBodies p = stubBodies q) (i : Nat) (hi : p.fns[i]? = q.fns[i]?) :
+    (run p).roots[i]? = (run q).roots[i]? ∧ (run p).types = (run q).types ∧ (run p).consts = (run q).consts ∧
+    (run p).funcs = (run q).funcs ∧ (run p).gcontext = (run q).gcontext := by
+  have hd := C17_decls p q h
+  refine ⟨?_, ?_, ?_, ?_, ?_⟩
+  · rw [C17_root, C17_root, hd, hi]
+  · show (declState p).types = (declState q).types; rw [hd]
+  · show (declState p).consts = (declState q).consts; rw [hd]
+  · show (declState p).funcs = (declState q).funcs; rw [hd]
+  · show (declState p).context = (declState q).context; rw [hd]
+
 end SemVerif
